@@ -26,7 +26,7 @@ EXT_MODULES = []
 GEN_FILES = ["BiotiteModel/Gen/C15.lean"]
 RULE = ("exact stream: dyadic coordinates of shapes (3,), (n,3), (m,n,3) incl. broadcast mixes, power-of-two "
         "orthorhombic boxes (all axis permutations/signs), float64 dyadic triclinic boxes, per-model boxes, through "
-        "displacement/index_displacement/distance/coord_to_fraction/fraction_to_coord/move_inside_box/"
+        "displacement/index_displacement/distance (ndarrays and AtomArray/AtomArrayStack objects carrying their own box, with and without an explicit box)/coord_to_fraction/fraction_to_coord/move_inside_box/"
         "remove_pbc_from_coord/remove_pbc/repeat_box(_coord)/is_orthogonal/box_volume/centroid/90-degree unit cells, compared as exact "
         "rationals with the Lean model; float stream: random float32/float64 geometry judged by the oracle "
         "(textbook formulae, rigid-motion invariance, lattice enumeration). non-trivial = at least two distinct "
@@ -40,7 +40,7 @@ ASSUMPTIONS = ["IEEE float32/float64 rounding is not modelled: theorems are over
                "(squared distance, cosine numerator and squared denominator, the two atan2 arguments)",
                "unit cell <-> box vector trigonometry is validated numerically only"]
 LEVEL_TEXT = ("Lean 4 proofs over Q / commutative rings for: rigid-motion invariance of squared distance, angle cosine and "
-              "both dihedral atan2 arguments; index variants == coordinate variants; orthogonal-box displacement is a "
+              "both dihedral atan2 arguments; index variants == coordinate variants with the documented box (explicit box overrides the atoms' own box; branch order re-extracted from the source); orthogonal-box displacement is a "
               "lattice translate of the difference and the shortest image (all integer shifts); triclinic displacement "
               "is a lattice translate and the shortest image whenever some image is shorter than half the smallest box "
               "height (squared form); move_inside_box lands in [0,1)^3, moves by a lattice vector, is idempotent; "
@@ -60,6 +60,7 @@ TECHNIQUE = "Lean 4 proof (polynomial identities, floor/argmin lemmas, list indu
 K_ARRAY_FAR = "C15/remove_pbc/bonded-atoms-not-array-adjacent-and-far-apart"
 K_UNITCELL_SNAP = "C15/vectors_from_unitcell/small-component-zeroed-by-sum-scaled-tolerance"   # repaired (c1ca2e86); regression key
 K_REPEAT_AMOUNT = "C15/repeat_box/amount-ignored"
+K_REPEAT_STACK = "C15/repeat_box/stack-copies-taken-from-other-models"
 
 
 # =====================================================================================
@@ -196,6 +197,34 @@ def extract_constants():
     passed = (len(c.args) >= 3 and isinstance(c.args[2], ast.Name) and c.args[2].id == "amount") or any(
         k.arg == "amount" and isinstance(k.value, ast.Name) and k.value.id == "amount" for k in c.keywords)
     out["repeatBoxPassesAmount"] = bool(passed)
+    # --- _call_non_index_function: which test comes first when the box for periodic=True is chosen?
+    f = _func(gt, "_call_non_index_function")
+    per = [n for n in ast.walk(f) if isinstance(n, ast.If) and isinstance(n.test, ast.Name) and n.test.id == "periodic"]
+    if len(per) != 1 or not per[0].body or not isinstance(per[0].body[0], ast.If):
+        raise ValueError("_call_non_index_function: `if periodic:` with a nested `if` not found")
+
+    def is_box_none(t):
+        return (isinstance(t, ast.Compare) and isinstance(t.left, ast.Name) and t.left.id == "box" and len(t.ops) == 1
+                and isinstance(t.ops[0], ast.Is) and isinstance(t.comparators[0], ast.Constant) and t.comparators[0].value is None)
+
+    def mentions_isinstance(t):
+        return any(isinstance(n, ast.Call) and isinstance(n.func, ast.Name) and n.func.id == "isinstance" for n in ast.walk(t))
+
+    def assigns_own_box(stmts):
+        return any(isinstance(n, ast.Assign) and isinstance(n.targets[0], ast.Name) and n.targets[0].id == "box"
+                   and isinstance(n.value, ast.Attribute) and n.value.attr == "box" for st in stmts for n in ast.walk(st))
+
+    def raises(stmts):
+        return any(isinstance(n, ast.Raise) for st in stmts for n in ast.walk(st))
+    first = per[0].body[0]
+    if is_box_none(first.test) and first.body and isinstance(first.body[0], ast.If) and mentions_isinstance(first.body[0].test) \
+            and assigns_own_box(first.body[0].body) and raises(first.body[0].orelse) and not first.orelse:
+        out["boxPrecedence"] = "explicitFirst"
+    elif mentions_isinstance(first.test) and assigns_own_box(first.body) and len(first.orelse) == 1 \
+            and isinstance(first.orelse[0], ast.If) and is_box_none(first.orelse[0].test) and raises(first.orelse[0].body):
+        out["boxPrecedence"] = "ownFirst"
+    else:
+        raise ValueError("_call_non_index_function: unrecognised box selection for periodic=True")
     # --- vectors_from_unitcell: is the zeroing tolerance scaled by the SUM of the three lengths?
     f = _func(bt, "vectors_from_unitcell")
     tols = [n for n in ast.walk(f) if isinstance(n, ast.Assign) and len(n.targets) == 1
@@ -223,6 +252,7 @@ def gen_lean():
         "open BiotiteModel.C15",
         "/-- constants and loop ranges as they are written in the source -/",
         "def consts : Consts where",
+        f"  boxPrecedence := .{k['boxPrecedence']}",
         f"  half := {_lean_rat(k['half'])}",
         f"  halfStrict := {'true' if k['halfStrict'] else 'false'}",
         f"  halfSub := {_lean_rat(k['halfSub'])}",
@@ -458,8 +488,23 @@ def gen_exact(rng):
         base = _coord(rng)
         a = _arr(rng, (m, n) if stack else (n,), near=base, box=rb)
         ps = _pairs(rng, n, rng.choice([0, 1, 2, 4]), bad=rng.random() < 0.08)
-        ops.append(f"idisp {dt} {enc_arr(a)} {enc_idx(ps)} {'T' if periodic else 'F'} {enc_box(boxarg)}")
-        ops.append(f"idist2 {dt} {enc_arr(a)} {enc_idx(ps)} {'T' if periodic else 'F'} {enc_box(boxarg)}")
+        own = "nd"
+        if rng.random() < 0.6:
+            # AtomArray / AtomArrayStack carrying its own box (orthorhombic, float32; `-` = box attribute None),
+            # combined with no explicit box, a different explicit box, periodic on and off
+            pick = rng.random()
+            if pick < 0.2:
+                own = "-"
+            elif stack and rng.random() < 0.6:
+                own = enc_box([_ortho_box(rng) for _ in range(m)])
+            else:
+                own = enc_box(_ortho_box(rng))
+            if rng.random() < 0.4:
+                boxarg = None
+            periodic = rng.random() < 0.8
+        tail = "" if own == "nd" else " " + own
+        ops.append(f"idisp {dt} {enc_arr(a)} {enc_idx(ps)} {'T' if periodic else 'F'} {enc_box(boxarg)}{tail}")
+        ops.append(f"idist2 {dt} {enc_arr(a)} {enc_idx(ps)} {'T' if periodic else 'F'} {enc_box(boxarg)}{tail}")
         if rng.random() < 0.15:
             ps3 = _pairs(rng, n, 1, width=3)
             ops.append(f"idisp {dt} {enc_arr(a)} {enc_idx(ps3)} F -")
@@ -497,6 +542,10 @@ def gen_exact(rng):
         ops.append(f"repeat {dt} {enc_arr(a)} {enc_box(boxarg)} {amount}")
         if n:
             ops.append(f"rbox {dt} {enc_arr(a)} {enc_box(boxarg)} {rng.choice(['-', str(amount)])}")
+        if n and rng.random() < 0.5:
+            # AtomArrayStack with per-model boxes: every model must be repeated with ITS coordinates and ITS box
+            m = rng.choice([2, 2, 3])
+            ops.append(f"rbox f32 {enc_arr(_arr(rng, (m, n)))} {enc_box([_box_for(rng, 'f32')[0] for _ in range(m)])} {rng.choice(['-', '1', '0'])}")
     elif r < 0.93:
         kind = "remove_pbc"
         boxarg = _box_for(rng, dt)[0]
@@ -609,6 +658,30 @@ def _npbox(np, b, dt):
                                             else [[float(c) for c in r] for r in b], dtype=dt)
 
 
+def _mk_atoms(np, struc, a, own):
+    """AtomArray (rank 2) / AtomArrayStack (rank 3) carrying `own` as its box attribute (None = no box)"""
+    if a.ndim == 2:
+        atoms = struc.AtomArray(a.shape[0])
+    else:
+        atoms = struc.AtomArrayStack(a.shape[0], a.shape[1])
+    atoms.coord = a.astype(np.float32)
+    if own is not None:
+        own = np.asarray(own, dtype=np.float32)
+        if a.ndim == 3 and own.ndim == 2:
+            own = np.stack([own] * a.shape[0])
+        atoms.box = own
+    return atoms
+
+
+def _index_target(np, struc, w, dt):
+    """(atoms-or-ndarray, explicit box, own box or None, is_atoms) of an `idisp`/`idist2` op"""
+    a, b = np_arr(dec_arr(w[2]), dt), _npbox(np, dec_box(w[5]), dt)
+    if len(w) >= 7 and w[6] != "nd":
+        own = _npbox(np, dec_box(w[6]), "float32")
+        return _mk_atoms(np, struc, a, own), a.astype(np.float32), b, own, True
+    return a, a, b, None, False
+
+
 def _npidx(np, s, width=2):
     if s == "_":
         return np.zeros((0, width), dtype=int)
@@ -625,7 +698,7 @@ def _run_op(np, struc, w):
         return "ok " + out_scal(struc.distance(a1, a2, b), _square_grid)
     if name in ("idisp", "idist2"):
         dt = DT[w[1]]
-        a, b = np_arr(dec_arr(w[2]), dt), _npbox(np, dec_box(w[5]), dt)
+        a, _c, b, _own, _is_atoms = _index_target(np, struc, w, dt)
         width = len(w[3].split(";")[0].split(":")) if w[3] != "_" else 2
         idx = _npidx(np, w[3], width)
         if name == "idisp":
@@ -644,9 +717,7 @@ def _run_op(np, struc, w):
         return "ok " + out_arr(rep) + " " + (",".join(str(int(i)) for i in idx) or "_")
     if name == "rbox":
         a, b = np_arr(dec_arr(w[2]), "float32"), _npbox(np, dec_box(w[3]), "float32")
-        atoms = struc.AtomArray(len(a))
-        atoms.coord = a
-        atoms.box = b
+        atoms = _mk_atoms(np, struc, a, b)
         rep, idx = struc.repeat_box(atoms) if w[4] == "-" else struc.repeat_box(atoms, int(w[4]))
         return "ok " + out_arr(rep.coord) + " " + (",".join(str(int(i)) for i in idx) or "_")
     if name == "rpbcmol":
@@ -742,6 +813,20 @@ def gen_float(rng):
     r = rng.random()
     dt = rng.choice(["f32", "f32", "f64"])
     seed = rng.getrandbits(48)
+    if r < 0.08:
+        # index variants on AtomArray / AtomArrayStack objects that carry their own box
+        n = rng.choice([5, 8, 12])
+        m = rng.choice([0, 0, 2, 3])
+        own_kind = rng.choice(["none", "box", "box", "box"])
+        exp_kind = rng.choice(["none", "box", "box"])
+        case = {"kind": "f-index", "n": n, "m": m, "periodic": rng.random() < 0.8, "seed": seed,
+                "atoms": rng.choice(["object", "object", "object", "ndarray"]),
+                "coord": _farr(rng, (m, n) if m else (n,), 25),
+                "idx": [rng.sample(range(-n, n), 4) for _ in range(rng.choice([1, 3, 6]))]}
+        case["own"] = None if own_kind == "none" else ([_float_box(rng)[1] for _ in range(m)] if m else _float_box(rng)[1])
+        case["explicit"] = None if exp_kind == "none" else (
+            [_float_box(rng)[1] for _ in range(m)] if (m and rng.random() < 0.5) else _float_box(rng)[1])
+        return case
     if r < 0.30:
         lim = rng.choice([5, 30, 100])
         n = rng.choice([1, 2, 4, 7])
@@ -919,7 +1004,7 @@ def oracle(case):
         warnings.simplefilter("ignore")
         k = case.get("kind", "")
         if k.startswith("f-"):
-            return {"f-geom": _o_geom, "f-pbc": _o_pbc, "f-move": _o_move, "f-unitcell": _o_unitcell, "f-rpbc": _o_rpbc}[k](case)
+            return {"f-geom": _o_geom, "f-index": _o_index, "f-pbc": _o_pbc, "f-move": _o_move, "f-unitcell": _o_unitcell, "f-rpbc": _o_rpbc}[k](case)
         return _o_exact(case)
 
 
@@ -951,22 +1036,41 @@ def _o_exact(case):
                         v += _check_disp(d_, r_, bx, 0.0, f"op `{op}`")
             elif w[0] == "idisp":
                 dt = DT[w[1]]
-                a, b = np_arr(dec_arr(w[2]), dt), _npbox(np, dec_box(w[5]), dt)
+                at, c, b, own, is_atoms = _index_target(np, struc, w, dt)
                 width = len(w[3].split(";")[0].split(":")) if w[3] != "_" else 2
                 idx = _npidx(np, w[3], width)
                 if width != 2:
                     continue
+                periodic = w[4] == "T"
+                # documented: periodic=False -> no box; an explicit `box` overrides the atoms' own `box` attribute
+                eff = None if not periodic else (b if b is not None else own)
+                must_reject = periodic and b is None and not is_atoms
                 try:
-                    r1 = struc.index_displacement(a, idx, periodic=(w[4] == "T"), box=b)
+                    r1 = struc.index_displacement(at, idx, periodic=periodic, box=b)
+                except IndexError:
+                    continue
+                except ValueError:
+                    if must_reject:
+                        continue
+                    try:
+                        struc.displacement(c[..., idx[:, 0], :], c[..., idx[:, 1], :], eff)
+                    except Exception:
+                        continue          # the coordinate variant rejects the same input (shape / singular box)
+                    v.append(("C15/index_displacement/rejected-although-coordinate-variant-accepts", f"op `{op}`"))
+                    continue
                 except Exception:
                     continue
-                r2 = struc.displacement(a[..., idx[:, 0], :], a[..., idx[:, 1], :], b if w[4] == "T" else None)
+                if must_reject:
+                    v.append(("C15/index_displacement/periodic-without-box-accepted", f"op `{op}`"))
+                    continue
+                r2 = struc.displacement(c[..., idx[:, 0], :], c[..., idx[:, 1], :], eff)
+                which = "explicit-box-vs-own-box" if (is_atoms and b is not None and own is not None) else "differs-from-coordinate-variant"
                 if r1.shape != r2.shape or not np.array_equal(r1, r2):
-                    v.append(("C15/index_displacement/differs-from-coordinate-variant", f"op `{op}`: {r1.tolist()} vs {r2.tolist()}"))
-                d1 = struc.index_distance(a, idx, periodic=(w[4] == "T"), box=b)
-                d2 = struc.distance(a[..., idx[:, 0], :], a[..., idx[:, 1], :], b if w[4] == "T" else None)
+                    v.append((f"C15/index_displacement/{which}", f"op `{op}`: {np.asarray(r1).tolist()} vs displacement(..., documented box) {np.asarray(r2).tolist()}"))
+                d1 = struc.index_distance(at, idx, periodic=periodic, box=b)
+                d2 = struc.distance(c[..., idx[:, 0], :], c[..., idx[:, 1], :], eff)
                 if not np.array_equal(d1, d2):
-                    v.append(("C15/index_distance/differs-from-coordinate-variant", f"op `{op}`"))
+                    v.append((f"C15/index_distance/{which}", f"op `{op}`"))
             elif w[0] == "move":
                 dt = DT[w[1]]
                 a, b = np_arr(dec_arr(w[2]), dt), _npbox(np, dec_box(w[3]), dt)
@@ -1019,35 +1123,40 @@ def _o_exact(case):
                 if w[0] == "repeat":
                     rep, idx = struc.repeat_box_coord(a, b, amount)
                 else:
-                    atoms = struc.AtomArray(len(a))
-                    atoms.coord = a
-                    atoms.box = b
-                    rep, idx = struc.repeat_box(atoms, amount)
+                    rep, idx = struc.repeat_box(_mk_atoms(np, struc, a, b), amount)
                     rep = rep.coord
-                n = len(a)
+                n = a.shape[-2]
                 want = (2 * amount + 1) ** 3 * n
-                if len(rep) != want or len(idx) != want:
-                    v.append((K_REPEAT_AMOUNT if w[0] == "rbox" and amount != 1 and len(rep) == 27 * n else f"C15/{'repeat_box' if w[0] == 'rbox' else 'repeat_box_coord'}/wrong-number-of-copies",
-                              f"op `{op}`: {len(rep)} coordinates, expected (2*{amount}+1)^3*{n} = {want}"))
+                if rep.shape[-2] != want or len(idx) != want or rep.shape[:-2] != a.shape[:-2]:
+                    v.append((K_REPEAT_AMOUNT if w[0] == "rbox" and amount != 1 and rep.shape[-2] == 27 * n else f"C15/{'repeat_box' if w[0] == 'rbox' else 'repeat_box_coord'}/wrong-number-of-copies",
+                              f"op `{op}`: shape {rep.shape}, expected (2*{amount}+1)^3*{n} = {want} coordinates per model"))
                     continue
-                bx = _box_exact(b)
-                det, invc = _inv_exact(bx)
-                seen = set()
-                for j, (y_, i_) in enumerate(zip(_exact(rep), idx)):
-                    if int(i_) != j % n:
-                        v.append(("C15/repeat_box/indices", f"op `{op}`: index {j} is {i_}"))
-                        break
-                    fd = _fracs(_subF(y_, _exact(a)[int(i_)]), invc)
-                    if not all(f.denominator == 1 and abs(f) <= amount for f in fd):
-                        v.append(("C15/repeat_box/copy-not-a-lattice-shift-within-amount", f"op `{op}`: copy {j} shifted by {[str(f) for f in fd]}"))
-                        break
-                    seen.add((int(i_), tuple(fd)))
-                    if j < n and any(fd):
-                        v.append(("C15/repeat_box/original-not-first", f"op `{op}`"))
-                        break
-                else:
-                    if len(seen) != want:
-                        v.append(("C15/repeat_box/duplicate-or-missing-box", f"op `{op}`: {len(seen)} distinct copies of {want}"))
+                models = [(a, rep, b)] if a.ndim == 2 else [(a[i], rep[i], b[i]) for i in range(len(a))]
+                for mi, (am_, rm_, bm_) in enumerate(models):
+                    bx = _box_exact(bm_)
+                    det, invc = _inv_exact(bx)
+                    seen = set()
+                    ea = _exact(am_)
+                    where = f"op `{op}`" + (f" model {mi}" if a.ndim == 3 else "")
+                    for j, (y_, i_) in enumerate(zip(_exact(rm_), idx)):
+                        if int(i_) != j % n:
+                            v.append(("C15/repeat_box/indices", f"{where}: index {j} is {i_}"))
+                            break
+                        fd = _fracs(_subF(y_, ea[int(i_)]), invc)
+                        if not all(f.denominator == 1 and abs(f) <= amount for f in fd):
+                            key = K_REPEAT_STACK if a.ndim == 3 else "C15/repeat_box/copy-not-a-lattice-shift-within-amount"
+                            v.append((key, f"{where}: copy {j} is atom {int(i_)} of this model shifted by box fractions {[str(f) for f in fd]}"))
+                            break
+                        seen.add((int(i_), tuple(fd)))
+                        if j < n and any(fd):
+                            v.append(("C15/repeat_box/original-not-first", where))
+                            break
+                    else:
+                        if len(seen) != want:
+                            v.append(("C15/repeat_box/duplicate-or-missing-box", f"{where}: {len(seen)} distinct copies of {want}"))
+                            continue
+                        continue
+                    break
         except Exception as e:  # noqa: BLE001
             v.append(("C15/oracle-internal/" + type(e).__name__, f"op `{op}`: {e}"))
     return v
@@ -1223,6 +1332,46 @@ def _o_geom(case):
             tol_h = 192 * eps * (1 + M2 / lmin) / smin ** 2
             if _angdiff(h1, h2) > tol_h:
                 v.append((f"C15/dihedral/not-invariant-under-{motion}", f"{h1!r} -> {h2!r} (tol {tol_h:.3g})"))
+    return v
+
+
+def _o_index(case):
+    """index_xxx(atoms, indices, periodic, box) == xxx(gathered coordinates, box selected by the documented rule):
+    periodic=False -> no box; explicit `box` overrides the `box` attribute of the atoms; attribute used otherwise;
+    plain coordinates with periodic=True and no box are rejected."""
+    import numpy as np
+
+    import biotite.structure as struc
+    v = []
+    c = np.array(case["coord"], dtype=np.float32)
+    own = None if case["own"] is None else np.array(case["own"], dtype=np.float32)
+    exp = None if case["explicit"] is None else np.array(case["explicit"], dtype=np.float32)
+    is_obj = case["atoms"] == "object"
+    atoms = _mk_atoms(np, struc, c, own) if is_obj else c
+    if not is_obj:
+        own = None
+    periodic = case["periodic"]
+    eff = None if not periodic else (exp if exp is not None else own)
+    idx = np.array(case["idx"], dtype=int)
+    for name, ifn, fn, k in (("displacement", struc.index_displacement, struc.displacement, 2), ("distance", struc.index_distance, struc.distance, 2),
+                             ("angle", struc.index_angle, struc.angle, 3), ("dihedral", struc.index_dihedral, struc.dihedral, 4)):
+        sub = idx[:, :k]
+        try:
+            got = ifn(atoms, sub, periodic=periodic, box=exp)
+        except ValueError as e:
+            if periodic and exp is None and not is_obj:
+                continue        # documented rejection
+            v.append((f"C15/index_{name}/rejected-although-coordinate-variant-accepts", f"{type(e).__name__}: {e}"))
+            continue
+        if periodic and exp is None and not is_obj:
+            v.append((f"C15/index_{name}/periodic-without-box-accepted", "plain coordinates, periodic=True, no box"))
+            continue
+        ref = fn(*[c[..., sub[:, j], :] for j in range(k)], box=eff)
+        if np.shape(got) != np.shape(ref) or not np.array_equal(got, ref, equal_nan=True):
+            which = "explicit-box-vs-own-box" if (is_obj and exp is not None and own is not None) else "differs-from-coordinate-variant"
+            v.append((f"C15/index_{name}/{which}",
+                      f"periodic={periodic}, atoms carry {'a box' if own is not None else 'no box'}, explicit box {'given' if exp is not None else 'not given'}: "
+                      f"{np.asarray(got).reshape(-1)[:4].tolist()} vs {name}(coords, documented box) {np.asarray(ref).reshape(-1)[:4].tolist()}"))
     return v
 
 
